@@ -15,6 +15,7 @@ use crate::verif_mv::MV;
 use crate::verif_support::Src;
 use crate::Error;
 use alloc::{vec, vec::Vec}; // for generated concrete-playback tests (no_std crate)
+use core::sync::atomic::{AtomicUsize, Ordering::Relaxed};
 
 type R = Result<u8, Error<MV>>;
 
@@ -41,9 +42,12 @@ impl Iterator for SrcR {
         self.0.next().map(m_item)
     }
 }
+/// number of times the filter argument has been started (`f.run(..)` called)
+static STARTED: AtomicUsize = AtomicUsize::new(0);
 struct FakeF(Src);
 impl FakeF {
     fn run(self, _cv: ((), MV)) -> SrcR {
+        STARTED.fetch_add(1, Relaxed);
         SrcR(self.0)
     }
 }
@@ -84,7 +88,10 @@ fn c11_limit_takes_n_on_demand() {
     let s = Src::any_exact(3);
     let (given, calls, len, items) = (s.given_handle(), s.calls_handle(), s.len(), s.items());
     let cv = (FakeVars { f: Some(FakeF(s)), n: MV::Int(n) }, MV::Null);
+    let s0 = STARTED.load(Relaxed);
     let mut it = real_limit()(cv);
+    // a non-positive count never starts f (starting a filter may already consume an input)
+    assert!(n > 0 || STARTED.load(Relaxed) == s0);
     let want = if n <= 0 { 0 } else if (n as usize) < len { n as usize } else { len };
     let mut k = 0;
     while k < 5 {
@@ -428,7 +435,9 @@ fn c11_limit_fractional_count() {
     let s = Src::any_exact(3);
     let (given, calls, len, items) = (s.given_handle(), s.calls_handle(), s.len(), s.items());
     let cv = (FakeVarsH { f: Some(FakeF(s)), n: Half(h) }, MV::Null);
+    let s0 = STARTED.load(Relaxed);
     let mut it = real_limit_h()(cv);
+    assert!(h > 0 || STARTED.load(Relaxed) == s0);
     let c = m_ceil_half(h);
     let want = if c < len { c } else { len };
     let mut k = 0;
